@@ -1,6 +1,5 @@
 // ----- ghost oracle: meaning of expressions and constraints (DESIGN §4).  Written from the language
 // documentation and the property statements, independent of the code under verification. -----
-pub type Env = Map<Seq<char>, real>;
 pub open spec fn truthy(x: real) -> bool { x != 0real }
 pub open spec fn b2r(b: bool) -> real { if b { 1real } else { 0real } }
 pub open spec fn sem_abs(x: real) -> real { if x >= 0real { x } else { -x } }
@@ -83,9 +82,6 @@ pub open spec fn relaxes(req: ValueRequirement, v_lin: real, v_true: real) -> bo
         ValueRequirement::PreferHigher => v_lin <= v_true,
     }
 }
-// products and quotients go through these wrappers so that nonlinear facts can be stated as triggerable lemmas
-pub open spec fn rmul_s(c: real, a: real) -> real { c * a }
-pub open spec fn rdiv_s(a: real, d: real) -> real { a / d }
 // one-step unfoldings as broadcast facts (cheaper than raising the fuel of the big recursive definition)
 pub broadcast proof fn lemma_sem_number(v: F64, env: Env)
     ensures #[trigger] sem(Exp::Number(v), env) == (if fv(v) is Fin { Some(rv(v)) } else { None::<real> }),
@@ -94,3 +90,15 @@ pub broadcast proof fn lemma_sem_variable(name: String, env: Env)
     ensures #[trigger] sem(Exp::Variable(name), env) == Some(env[name@]),
 {}
 pub broadcast group semx { lemma_sem_number, lemma_sem_variable }
+// all numeric literals of an expression are finite (the precondition under which C08's "finite coefficients" holds)
+pub open spec fn exp_fin(e: Exp) -> bool
+    decreases e,
+{
+    match e {
+        Exp::Number(v) => fv(v) is Fin,
+        Exp::Variable(_) => true,
+        Exp::Abs(i) | Exp::Not(i) | Exp::UnOp(_, i) => exp_fin(*i),
+        Exp::Min(es) | Exp::Max(es) | Exp::And(es) | Exp::Or(es) => forall|i: int| 0 <= i < es@.len() ==> exp_fin(#[trigger] es@[i]),
+        Exp::Xor(a, b) | Exp::Implies(a, b) | Exp::Iff(a, b) | Exp::BinOp(_, a, b) => exp_fin(*a) && exp_fin(*b),
+    }
+}
